@@ -104,6 +104,13 @@ def _is_tol(e: ast.expr) -> bool:
     return (attr_chain(e) or "").split(".")[-1] in ("TOL", "VSMALL")
 
 
+def _is_tol_term(e: ast.expr) -> bool:
+    """TOL itself, or TOL scaled by further factors (TOL * norm(a) * norm(b): a tolerance relative to the size of the thing tested)"""
+    if _is_tol(e):
+        return True
+    return isinstance(e, ast.BinOp) and isinstance(e.op, ast.Mult) and (_is_tol_term(e.left) or _is_tol_term(e.right))
+
+
 def _guards_raise(cmp_: ast.Compare, fn: FuncInfo) -> Optional[ast.If]:
     p = parent(cmp_)
     while p is not None and not isinstance(p, ast.stmt):
@@ -121,13 +128,13 @@ def one_sided_tol(repo: Repo) -> RuleRun:
             if not (isinstance(n, ast.Compare) and len(n.ops) == 1):
                 continue
             lhs, rhs = n.left, n.comparators[0]
-            if not (_is_tol(rhs) or _is_tol(lhs)):
+            if not (_is_tol_term(rhs) or _is_tol_term(lhs)):
                 continue
             total += 1
             guard = _guards_raise(n, fn)
             if guard is None:
                 continue
-            expr, op = (lhs, n.ops[0]) if _is_tol(rhs) else (rhs, {ast.Gt: ast.Lt(), ast.Lt: ast.Gt(), ast.GtE: ast.LtE(), ast.LtE: ast.GtE()}.get(type(n.ops[0]), n.ops[0]))
+            expr, op = (lhs, n.ops[0]) if _is_tol_term(rhs) else (rhs, {ast.Gt: ast.Lt(), ast.Lt: ast.Gt(), ast.GtE: ast.LtE(), ast.LtE: ast.GtE()}.get(type(n.ops[0]), n.ops[0]))
             env = SignEnv(repo, fn)
             nn = env.nonneg(expr)
             negated = isinstance(parent(n), ast.UnaryOp) and isinstance(parent(n).op, ast.Not)
